@@ -242,10 +242,21 @@ Definition p_offset : parser str :=
                              | None => None
                              end)) ].
 
-(* hs_isoDateTime: the text handed to iso8601.parse_date after .upper() *)
+(* hs_isoDateTime: the text handed to iso8601.parse_date after .upper(); parse_date raises
+   ParseError (a ValueError) for impossible dates, times and offsets of a day or more *)
 Definition p_iso_datetime : parser str :=
-  pmap (fun x => let '(d, (_, (tm, off))) := x in
-                 date_text d ++ 84 :: time_text tm ++ match off with Some o => o | None => [] end)
+  pact (fun x => let '(d, (_, (tm, off))) := x in
+                 let '(y, m, dd) := d in
+                 let '(hh, mm, ss, fr) := tm in
+                 let ok_off := match off with
+                               | Some (_ :: a :: b :: _ :: c :: e :: _) =>
+                                   int_of_digits [a; b] * 60 + int_of_digits [c; e] <? 1440
+                               | _ => true
+                               end in
+                 if valid_date (int_of_digits y) (int_of_digits m) (int_of_digits dd)
+                    && (int_of_digits hh <=? 23) && (int_of_digits mm <=? 59) && (int_of_digits ss <=? 59) && ok_off
+                 then Ok (date_text d ++ 84 :: time_text tm ++ match off with Some o => o | None => [] end)
+                 else Raise ValueError)
        (pand p_date_str (pand (pchar (fun c => (c =? 84) || (c =? 116))) (pand p_time_str (popt p_offset)))).
 
 (* hs_timeZoneName = Or([hs_tzUTCOffset, hs_tzName]) *)
@@ -274,28 +285,38 @@ Definition is_digit_us (c : N) : bool := is_ascii_digit c || (c =? 95).
 Definition p_digits : parser str :=
   pmap (fun s => filter (fun c => negb (c =? 95)) s) (pspan1 is_digit_us).
 
-(* hs_coordDeg: the text given to float(), '0' when empty *)
+(* float(text) raises ValueError unless the mantissa has a digit (and the exponent, if any, too) *)
+Definition has_any (o : option str) : bool := match o with Some (_ :: _) => true | _ => false end.
+
+(* hs_coordDeg: float(toks[0] or '0') *)
 Definition p_coord_deg : parser str :=
-  pmap (fun x => let '(sg, (ip, fp)) := x in
+  pact (fun x => let '(sg, (ip, fp)) := x in
                  let txt := (match sg with Some _ => [45] | None => [] end)
                             ++ (match ip with Some d => d | None => [] end)
                             ++ (match fp with Some d => 46 :: d | None => [] end) in
-                 match txt with [] => [48] | _ => txt end)
+                 match txt with
+                 | [] => Ok [48]
+                 | _ => if has_any ip || has_any fp then Ok txt else Raise ValueError
+                 end)
        (pand (popt (plit [45])) (pand (popt p_digits) (popt (pthen (plit [46]) p_digits)))).
 Definition p_coord : parser hval :=
   pmap (fun x => VCoord (fst x) (snd x))
        (pthen (plit (s_ "C(")) (pand p_coord_deg (pthen value_sep (pbefore p_coord_deg (plit [41]))))).
 
-(* hs_exp, hs_decimal: the text given to float() *)
-Definition p_exp : parser str :=
-  pmap (fun x => 101 :: (match fst (snd x) with Some c => [c] | None => [] end) ++ snd (snd x))
+(* hs_exp: 'e', sign, digits (possibly none left once the underscores are removed) *)
+Definition p_exp : parser (str * bool) :=
+  pmap (fun x => (101 :: (match fst (snd x) with Some c => [c] | None => [] end) ++ snd (snd x),
+                  match snd (snd x) with [] => false | _ => true end))
        (pand (pchar (fun c => (c =? 101) || (c =? 69)))
              (pand (popt (pchar (fun c => (c =? 43) || (c =? 45)))) p_digits)).
+(* hs_decimal: float(toks[0]) *)
 Definition p_decimal : parser str :=
-  pmap (fun x => let '(sg, (ip, (fp, ex))) := x in
-                 (match sg with Some _ => [45] | None => [] end) ++ ip
-                 ++ (match fp with Some d => 46 :: d | None => [] end)
-                 ++ (match ex with Some e => e | None => [] end))
+  pact (fun x => let '(sg, (ip, (fp, ex))) := x in
+                 let txt := (match sg with Some _ => [45] | None => [] end) ++ ip
+                            ++ (match fp with Some d => 46 :: d | None => [] end)
+                            ++ (match ex with Some e => fst e | None => [] end) in
+                 if (has_any (Some ip) || has_any fp) && (match ex with Some e => snd e | None => true end)
+                 then Ok txt else Raise ValueError)
        (pand (popt (plit [45])) (pand p_digits (pand (popt (pthen (plit [46]) p_digits)) (popt p_exp)))).
 
 (* hs_unitChar: a letter, or one of % _ / $, or U+0080 .. U+FFFE *)
@@ -452,7 +473,7 @@ Definition zparse_scalar (ver3 : bool) (t : str) : res hval :=
   let t' := t in
   match p_scalar (S (S (length t'))) ver3 t' with
   | Some (Ok v, rest) => if only_ws rest then Ok v else Raise ZincParseException
-  | Some (Raise e, rest) => if only_ws rest then Raise e else Raise ZincParseException
+  | Some (Raise e, rest) => Raise e      (* the parse action raised while parsing, before the end-of-text check *)
   | None => Raise ZincParseException
   end.
 
